@@ -7,10 +7,15 @@ use crate::internal::left_right;
 use papaya::HashMap;
 use std::fmt;
 use std::hash::Hash;
+#[cfg(not(excsn_fibre_verif))]
 use std::sync::{
   atomic::{AtomicUsize, Ordering},
   Arc, Weak,
 };
+#[cfg(excsn_fibre_verif)]
+use std::sync::{Arc, Weak};
+#[cfg(excsn_fibre_verif)]
+use crate::internal::sync::{AtomicUsize, Ordering};
 
 /// A highly-concurrent list of subscribers for a single topic.
 /// This struct is now Send + Sync because its fields are.
